@@ -634,6 +634,10 @@ func (r *ringDescriber) getLocalHostInfo() (*HostInfo, error) {
 	if err != nil {
 		return nil, fmt.Errorf("could not retrieve local host info: %w", err)
 	}
+	if host.invalidConnectAddr() {
+		// the ring refuses (panics on) a host it cannot connect to
+		return nil, errors.New("could not retrieve local host info: the system.local row names no usable address")
+	}
 	return host, nil
 }
 
